@@ -207,6 +207,24 @@ def leaf_case(rep: Report, rec: Dict[str, Any], rng: random.Random) -> None:
         if which == 0:
             mod.train(True)
             twin_check(rep, module, opts, mod, ins, case)
+    # history: a hyper-parameter the module exposes as a public attribute (as its torch.nn twin does) is CHANGED after construction
+    # (dropout schedules, eps sweeps): the module must then compute the function with the new value
+    ALT = {"p": [0.1, 0.6], "eps": [1e-3, 0.5], "mult": [0.5, 2.0]}
+    for k in [k for k in opts if k in ALT and hasattr(mod, k) and isinstance(getattr(mod, k), (int, float))]:
+        newv = [v for v in ALT[k] if v != opts[k]][0]
+        setattr(mod, k, newv)
+        opts2 = dict(opts, **{k: newv})
+        ins = inputs_for(module, opts2, rng, 0)
+        mod.train(True)
+        try:
+            a, b = run_both(rec, mod, opts2, ins, seed=rng.randrange(1 << 20))
+        except Exception as ex:
+            rep.violation(f"{label}: after setting .{k} = {newv!r}: raised {type(ex).__name__}: {str(ex)[:120]}", dict(case, changed=k), key=f"raised_after_change:{module}:{k}")
+            continue
+        bad = eq(a, b)
+        if bad:
+            rep.violation(f"{label}: after setting .{k} = {newv!r} the {bad} differs from U.{rec['func']} called with the new value (a value computed at construction went stale)",
+                          dict(case, changed=k, value=newv), key=f"stale_after_change:{module}:{k}")
 
 
 def init_statistics(rep: Report) -> None:
